@@ -233,7 +233,15 @@ def build_runner(rdir, extract_v, module):
     """coqc the extraction file inside ocaml/<rdir>, regenerate conv.ml, dune build"""
     d = os.path.join(OCAML, rdir)
     with Lock("ocaml"):
-        rc, out = sh(["coqc", "-Q", COQ, "GmsmVerif", os.path.join(COQ, extract_v)], cwd=d, timeout=600)
+        # the extraction file is compiled outside make: bring its dependencies up to date and extract under the
+        # Coq build lock, so that nobody recompiles a dependency in between ("inconsistent assumptions")
+        deps = [f[:-2] + ".vo" for f in coq_deps(extract_v) if f != extract_v]
+        with Lock("coq"):
+            if deps:
+                okm, outm = coq_make(deps, timeout=3000)
+                if not okm:
+                    return None, "dependencies of %s do not build:\n%s" % (extract_v, outm[-3000:])
+            rc, out = sh(["coqc", "-Q", COQ, "GmsmVerif", os.path.join(COQ, extract_v)], cwd=d, timeout=900)
         if rc != 0:
             return None, "extraction failed:\n" + out[-3000:]
         with open(os.path.join(OCAML, "conv.ml.tmpl")) as f:
